@@ -57,6 +57,12 @@ pub enum SlinkyError {
     #[error("`single_segment_mode` requires exactly one segment, but {count} were given")]
     InvalidSegmentCountForSingleSegmentMode { count: usize },
 
+    #[error("The `sections_subgroups` of segment '{segment}' make the section '{section}' contain itself")]
+    RecursiveSectionsSubgroups {
+        segment: Cow<'static, str>,
+        section: Cow<'static, str>,
+    },
+
     #[error("Segment '{segment}' references undefined vram class '{vram_class}'")]
     MissingVramClassForSegment {
         segment: Cow<'static, str>,
